@@ -19,7 +19,7 @@ theorem dec_linkADRReq (b0 b1 b2 b3 : Byte) :
   congr 1
   · apply BitVec.eq_of_toNat_eq; simp only [toNat_hi4, BitVec.toNat_ofNat]; omega
   · apply BitVec.eq_of_toNat_eq; simp only [toNat_and_0f, BitVec.toNat_ofNat]; omega
-  · rw [show (0 : BitVec 16) = 0#16 from rfl, BitVec.zero_or]; apply BitVec.eq_of_toNat_eq; simp only [BitVec.toNat_ofNat]; omega
+  · apply BitVec.eq_of_toNat_eq; simp only [BitVec.toNat_ofNat]; omega
   · apply BitVec.eq_of_toNat_eq; simp only [toNat_hi3, BitVec.toNat_ofNat]; omega
   · apply BitVec.eq_of_toNat_eq; simp only [toNat_and_0f, BitVec.toNat_ofNat]; omega
 
